@@ -321,3 +321,21 @@ package types
 //@   modifies nothing
 //@   ensures beg-only: result == (mf.match == MatchBegin)
 //@ end
+
+// ---------------------------------------------------------------------------
+// C06 — the hosts in hostname order: a sequence that does not depend on the
+// iteration order of the underlying map
+
+//@ spec func hostsKeyed(h *Hosts) bool = h != nil && h.items != nil && forall n string :: in(n, h.items) ==> h.items[n] != nil && h.items[n].Hostname == n
+
+//@ func (*Hosts).BuildSortedItems
+//@   props C06
+//@   assumes keyed: hostsKeyed(h)
+//@   modifies nothing
+//@   ensures sorted: forall a int, b int :: 0 <= a && a < b && b < len(result) ==> result[a].Hostname < result[b].Hostname
+//@   ensures elems:  forall a int :: 0 <= a && a < len(result) ==> result[a] != nil && result[a].Hostname != DefaultHost && in(result[a].Hostname, h.items) && h.items[result[a].Hostname] == result[a]
+//@   loop 1 invariant own:   fresh(items) && 0 <= i && len(items) == len(h.items)
+//@   loop 1 invariant elems: forall a int :: 0 <= a && a < i ==> items[a] != nil && items[a].Hostname != DefaultHost && in(items[a].Hostname, h.items) && h.items[items[a].Hostname] == items[a]
+//@   loop 1 invariant seen:  forall a int :: 0 <= a && a < i ==> $seen(1, items[a].Hostname)
+//@   loop 1 invariant uniq:  forall a int, b int :: 0 <= a && a < b && b < i ==> items[a].Hostname != items[b].Hostname
+//@ end
